@@ -299,3 +299,11 @@ class Recorder(object):
     def finalize(self):
         self.solver.Finalize()
         self.emit("Finalize")
+
+    def query(self):
+        """read-only questions a caller may ask between calls"""
+        s = self.solver
+        stop = bool(s.Terminated())
+        msg = s.Terminated(info=True)
+        _ = (s.bestEnergy, s.bestSolution, s.evaluations, s.generations, len(s.energy_history), len(s.solution_history))
+        self.emit("Query", stop=stop, msg=msgclass(msg))
